@@ -125,6 +125,8 @@ def parseAction (ws : List String) : Option Action :=
     | some w, some c, some r => some (.start (.get { wait := w, create := c, recycle := r }))
     | _, _, _ => none
   | ["start", "ret", id] => id.toNat?.map fun n => .start (.ret n)
+  -- the object dropped while its holder unwinds from a panic: a return like any other
+  | ["start", "ret", id, "unwinding"] => id.toNat?.map fun n => .start (.ret n)
   | ["start", "take", id] => id.toNat?.map fun n => .start (.take n)
   | ["start", "resize", n] => n.toNat?.map fun n => .start (.resize n)
   | ["start", "close"] => some (.start .close)
